@@ -78,6 +78,24 @@ fn candidates(i: &Inner, only_objs: Option<&[u8]>, dormant_pool_threads: usize, 
     // a future_sync operation is only ever polled by the task that owns its future: a wake-up obliges somebody to poll it again only
     // while that task is awaiting it (a future that was polled once and left is resumed when, and if, its owner comes back to it)
     let fs_pollable = |id: OpId, o: &OpRec| o.kind != Kind::FutSync || o.parent.is_some() || awaited.contains(&id);
+    // the context that last polled a suspended operation can be resumed directly by the wake-up (no pool thread needed) only if it is
+    // waiting for exactly that: a caller awaiting a future of the same object (its poll drains the queue), or a caller blocked in
+    // sync() on that object. A task that polled once and is now parked somewhere else is not resumed by this wake-up.
+    let poller_can_resume = |_id: OpId, o: &OpRec| {
+        let t = if o.last_poll_task != usize::MAX { o.last_poll_task } else { o.runner_task };
+        if pool_task(t) {
+            return false;
+        }
+        i.callers.iter().any(|c| {
+            c.task == t
+                && match c.stage {
+                    Stage::Awaiting(f) | Stage::SyncWaiting(f) => i.ops[f].obj == o.obj,
+                    Stage::InCall(s2) => i.ops[s2].kind == Kind::Sync && i.ops[s2].obj == o.obj,
+                    Stage::Dropping(ob) => ob == o.obj,
+                    _ => false,
+                }
+        })
+    };
     // (2) accepted operations that have not finished
     for (id, o) in i.ops.iter().enumerate() {
         if !relevant(o) || !in_scope(o.obj) || i.objs[o.obj].expect_panicked {
@@ -124,13 +142,13 @@ fn candidates(i: &Inner, only_objs: Option<&[u8]>, dormant_pool_threads: usize, 
             // (a thread that is blocked in sync() on this object is a runner too: it takes a rescheduled queue over)
             // (not for a future_sync operation: that one is polled by the task that owns its future, nobody else)
             let sync_waiter = o.kind != Kind::FutSync && i.ops.iter().any(|a| a.obj == o.obj && a.kind == Kind::Sync && a.inv != 0 && a.ret == 0 && a.start == 0 && !a.panicked);
-            if i.gates[g].open && fs_pollable(id, o) && (!quiet_after_panic || (i.gates[g].opened_in_final && i.panic_clock < i.final_stage_clock)) && (pool_capacity || sync_waiter || !pool_task(if o.last_poll_task != usize::MAX { o.last_poll_task } else { o.runner_task })) {
+            if i.gates[g].open && fs_pollable(id, o) && (!quiet_after_panic || (i.gates[g].opened_in_final && i.panic_clock < i.final_stage_clock)) && (pool_capacity || sync_waiter || poller_can_resume(id, o)) {
                 out.push(Cand { op: Some(id), obj: o.obj, prop: "C06", clause: "wake-lost", inv: o.inv, ret: o.ret, detail: format!("{:?} #{} on o{} is suspended on gate g{} which was opened at t={} but was never resumed", o.kind, id, o.obj, g, i.gates[g].opened_at) });
             }
         }
         else if o.waiting_self && o.start != 0 && !quiet_after_panic && fs_pollable(id, o) {
             // woke itself during the poll: it is never legitimately waiting
-            if pool_capacity || !pool_task(if o.last_poll_task != usize::MAX { o.last_poll_task } else { o.runner_task }) {
+            if pool_capacity || poller_can_resume(id, o) {
                 out.push(Cand { op: Some(id), obj: o.obj, prop: "C06", clause: "wake-lost", inv: o.inv, ret: o.ret, detail: format!("{:?} #{} on o{} woke its own waker during a poll and returned Pending, but was never polled again", o.kind, id, o.obj) });
             }
         }
